@@ -54,9 +54,9 @@ Definition c03_resp (q : request) (rsp : response) : bool :=
 
 Definition took_effect (q : request) (rsp : response) : option (bool * string) :=   (* (is_create, promise id) *)
   match q, rsp with
-  | QCreatePromise r, RspPromise 20100 _ => Some (true, cpr_id r)
-  | QCreatePromiseAndTask r _ _, RspPromiseTask 20100 _ _ => Some (true, cpr_id r)
-  | QCompletePromise r, RspPromise 20100 _ => Some (false, cmr_id r)
+  | QCreatePromise r, RspPromise st _ => if st =? 20100 then Some (true, cpr_id r) else None
+  | QCreatePromiseAndTask r _ _, RspPromiseTask st _ _ => if st =? 20100 then Some (true, cpr_id r) else None
+  | QCompletePromise r, RspPromise st _ => if st =? 20100 then Some (false, cmr_id r) else None
   | _, _ => None
   end.
 
@@ -111,3 +111,34 @@ Definition h301 (m : rmap) (now : Z) (d : db) (dir : directive) (ob : list obs) 
   end.
 
 Definition C03a_mon (tr : list (directive * list obs)) : list viol := hmon_from rmap h301 [] 0 db0 0 tr.
+
+(* ---------- 302 alone, as a monitor with state (proved empty for every schedule: Proofs/PT03b.v) ----------
+   The state is the request map of 301 and the list of (kind, promise id) already answered "took effect". *)
+Definition key_eqb (a b : bool * string) : bool := Bool.eqb (fst a) (fst b) && String.eqb (snd a) (snd b).
+
+Definition obs302 (m : rmap) (acc : list (bool * string) * list Z) (o : obs) : list (bool * string) * list Z :=
+  match o with
+  | OInst id _ (Some rsp) =>
+    match lookup_req id m with
+    | Some q =>
+      match took_effect q rsp with
+      | Some k => if existsb (key_eqb k) (fst acc) then (fst acc, 302 :: snd acc) else (k :: fst acc, snd acc)
+      | None => acc
+      end
+    | None => acc
+    end
+  | _ => acc
+  end.
+
+Definition h302 (st : rmap * list (bool * string)) (now : Z) (d : db) (dir : directive) (ob : list obs)
+  : (rmap * list (bool * string)) * list Z :=
+  match dir with
+  | DTick _ _ bgs arrive =>
+    let m' := (map (fun x => (fst x, None)) bgs ++ map (fun x => (fst x, Some (snd x))) arrive ++ fst st)%list in
+    let acc := fold_left (obs302 m') ob (snd st, []) in
+    ((m', fst acc), snd acc)
+  | _ => (st, [])
+  end.
+
+Definition C03b_mon (tr : list (directive * list obs)) : list viol :=
+  hmon_from (rmap * list (bool * string)) h302 ([], []) 0 db0 0 tr.
